@@ -56,6 +56,20 @@ Update(c, remote) ==
             /\ cbLocal' = IF ~remote /\ cbLocal < 2 THEN cbLocal + 1 ELSE cbLocal
             /\ out' = "changed" /\ UNCHANGED subscribed
 
+\* The application may install a value getter (OnValueGet); every read, by a connection or by the application, first stores
+\* what the getter returns: same conversion and clamping, no permission check (it is the application's value), callbacks
+\* of the remote kind when a connection reads.  characteristic.go:109-114
+GetterRead(c, remote) ==
+  /\ act' = [a |-> "GetterRead", cls |-> c, remote |-> remote] /\ UNCHANGED cfg
+  /\ LET v == Convert(c) IN
+       IF Composite(v.t) /\ val.t = v.t /\ ~Guard("compare_is_total")
+       THEN out' = "panic" /\ UNCHANGED <<val, cbRemote, cbLocal, subscribed>>
+       ELSE IF v = val THEN out' = "same" /\ UNCHANGED <<val, cbRemote, cbLocal, subscribed>>
+       ELSE /\ val' = IF "pr" \in Perms \/ ~Guard("store_needs_pr") THEN v ELSE val
+            /\ cbRemote' = IF remote /\ cbRemote < 2 THEN cbRemote + 1 ELSE cbRemote
+            /\ cbLocal' = IF ~remote /\ cbLocal < 2 THEN cbLocal + 1 ELSE cbLocal
+            /\ out' = "changed" /\ UNCHANGED subscribed
+
 Subscribe == /\ act' = [a |-> "Subscribe", cls |-> "none", remote |-> TRUE] /\ UNCHANGED cfg
              /\ subscribed' = ("ev" \in Perms \/ ~Guard("subscribe_needs_ev"))
              /\ out' = IF subscribed' THEN "sub_ok" ELSE "sub_refused"
@@ -64,7 +78,7 @@ TypedGet == /\ act' = [a |-> "TypedGet", cls |-> "none", remote |-> FALSE] /\ UN
             /\ out' = IF val.t \in {Format, "nil"} THEN "get_ok" ELSE "panic"    \* c.Value.(string) etc.
             /\ UNCHANGED <<val, cbRemote, cbLocal, subscribed>>
 
-Next == \/ \E c \in Classes, r \in BOOLEAN : Update(c, r)
+Next == \/ \E c \in Classes, r \in BOOLEAN : Update(c, r) \/ GetterRead(c, r)
         \/ Subscribe \/ TypedGet
 Spec == Init /\ [][Next]_vars
 
@@ -72,7 +86,7 @@ Spec == Init /\ [][Next]_vars
 TypeOK == val.t \in {Format, "nil"} /\ (val.t \in {"int", "float"} => val.m >= Min /\ val.m <= Max)
 NoPanic == out # "panic"
 \* ---- C11
-NoWriteWithoutPw == [][ "pw" \notin Perms /\ cbRemote' # cbRemote => FALSE ]_vars
+NoWriteWithoutPw == [][ (act'.a = "Update" /\ "pw" \notin Perms /\ cbRemote' # cbRemote) => FALSE ]_vars
 NoValueWithoutPr == "pr" \notin Perms => val = Nil
 NoEventsWithoutEv == "ev" \notin Perms => ~subscribed
 View == <<cfg, val, cbRemote, cbLocal, subscribed, out>>
